@@ -47,6 +47,28 @@ fn main() {
         n += 1;
         if bad.is_none() { if let Ok((data, _)) = loader2.get(Iri::new_unchecked(i)) { if data == b"SECRET" { bad = Some(i.to_string()); } } }
     }
+    // a directory given relatively must be refused, or keep designating the directory it designated when configured
+    // (the working directory may change later)
+    {
+        let (da, db) = (tmp.join("A"), tmp.join("B"));
+        fs::create_dir_all(da.join("cache")).unwrap();
+        fs::create_dir_all(db.join("cache")).unwrap();
+        fs::write(da.join("cache").join("doc.ttl"), b"INSIDE").unwrap();
+        fs::write(db.join("cache").join("doc.ttl"), b"SECRET").unwrap();
+        let back = std::env::current_dir().unwrap();
+        for rel in ["cache", "./cache", "../A/cache"] {
+            std::env::set_current_dir(&da).unwrap();
+            let made = LocalLoader::new(vec![(Iri::new_unchecked("z:/".into()), std::path::PathBuf::from(rel))]);
+            std::env::set_current_dir(&db).unwrap();
+            if let Ok(l) = made {
+                for i in ["z:/doc.ttl", "z:/doc", "z:/doc.ttl#f"] {
+                    n += 1;
+                    if bad.is_none() { if let Ok((data, _)) = l.get(Iri::new_unchecked(i)) { if data == b"SECRET" { bad = Some(format!("{} (directory configured as {:?} relative to another working directory)", i, rel)); } } }
+                }
+            }
+        }
+        std::env::set_current_dir(&back).unwrap();
+    }
     let ok_inside = loader.get(Iri::new_unchecked("x:/in.ttl")).map(|(d, _)| d == b"INSIDE").unwrap_or(false);
     let _ = fs::remove_dir_all(&tmp);
     if let Some(i) = bad {
